@@ -133,6 +133,7 @@ def dispatch (j : Json) : Json :=
   | some "solve" => opSolve j
   | some "stack" => opStack j
   | some "rename" => opRename j
+  | some "compose" => opCompose j
   | some "wiring" => opWiring j
   | some "split" => opSplit j
   | some "prune" => opPrune j
